@@ -419,14 +419,14 @@ func report(ck *Check, tier string, seed int64, results []*Result, start time.Ti
 	for _, s := range sigs {
 		fmt.Printf("KNOWN-FINDING: property=%s %s [signature %s, seen in %d runs]\n", ck.ID, known[s].What, s, knownHit[s])
 	}
-	os.MkdirAll(filepath.Join(verifDir, "replays"), 0o755)
+	os.MkdirAll(filepath.Join(outDir(), "replays"), 0o755)
 	seenSig := map[string]bool{}
 	for _, u := range unlisted {
 		if seenSig[u.v.Sig] {
 			continue
 		}
 		seenSig[u.v.Sig] = true
-		path := filepath.Join(verifDir, "replays", fmt.Sprintf("%s-%d-%s.json", ck.ID, u.r.Seed, sanitize(u.v.Sig)))
+		path := filepath.Join(outDir(), "replays", fmt.Sprintf("%s-%d-%s.json", ck.ID, u.r.Seed, sanitize(u.v.Sig)))
 		writeReplay(path, ck.ID, u.r, u.v)
 		fmt.Printf("VIOLATION property=%s replay=%s\n", ck.ID, path)
 		fmt.Printf("  signature=%s scenario=%s seed=%d: %s\n", u.v.Sig, u.r.Scen, u.r.Seed, u.v.Msg)
@@ -507,10 +507,17 @@ func sanitize(s string) string {
 	return string(out)
 }
 
+func outDir() string {
+	if d := os.Getenv("VERIF_OUT"); d != "" {
+		return d
+	}
+	return verifDir
+}
+
 func writeEvidence(id string, ev map[string]interface{}) {
-	os.MkdirAll(filepath.Join(verifDir, "evidence"), 0o755)
+	os.MkdirAll(filepath.Join(outDir(), "evidence"), 0o755)
 	data, _ := json.MarshalIndent(ev, "", " ")
-	os.WriteFile(filepath.Join(verifDir, "evidence", id+".json"), data, 0o644)
+	os.WriteFile(filepath.Join(outDir(), "evidence", id+".json"), data, 0o644)
 }
 
 func writeReplay(path, prop string, r *Result, v Violation) {
